@@ -11,6 +11,8 @@ from numpy import fft
 import time
 import random
 
+__all__ = ["ft_sh_phase_screen", "ft_phase_screen"]
+
 
 def ft_sh_phase_screen(r0, N, delta, L0, l0, FFT=None, seed=None):
 
